@@ -116,6 +116,7 @@ type Interp struct {
 	fixed      map[string]uint64 // variables uniquely determined by the path condition
 	free       map[string]bool   // variables found not (yet) determined
 	userState  map[string]Value
+	bypass     *ssa.Function // the next call of this function runs its real body instead of its intercept
 }
 
 func (in *Interp) info(fn *ssa.Function) *fnInfo {
@@ -942,7 +943,9 @@ func (in *Interp) call(fn *ssa.Function, args []Value, free []Value) (ret Value)
 		fi.intercept = resolveIntercept(fn)
 		fi.resolved = true
 	}
-	if fi.intercept != nil {
+	if fi.intercept != nil && in.bypass == fn {
+		in.bypass = nil // an intercept asked for the real body (e.g. intercepts_unicode.go outside Latin-1)
+	} else if fi.intercept != nil {
 		if in.intercepts != nil {
 			in.intercepts[fn.String()]++
 		}
@@ -1365,11 +1368,58 @@ func (in *Interp) symSelect(elems []Value, off, n int, it *Term) (Value, bool) {
 	if !in.decide(Bin("bvult", t64, C(64, uint64(n)))) {
 		in.goPanicStr(fmt.Sprintf("runtime error: index out of range [symbolic] with length %d", n))
 	}
+	if r := constTableSelect(elems, off, n, t64); r != nil {
+		return r, true
+	}
 	r := elems[off+n-1].(*Term)
 	for i := n - 2; i >= 0; i-- {
 		r = Ite(Eq(t64, C(64, uint64(i))), elems[off+i].(*Term), r)
 	}
 	return r, true
+}
+
+// constTableSelect encodes a symbolic index into a table of *constants* (strings.asciiSpace, unicode.properties,
+// utf8.first, ...) as an ite over the maximal runs of equal entries, with the most frequent entry as the default:
+// the same function as the entry-by-entry chain, but a handful of range tests instead of n equalities (z3 4.8.12
+// needs seconds per query once a few 256-deep chains are on the assertion stack). nil: not a constant table.
+func constTableSelect(elems []Value, off, n int, t64 *Term) *Term {
+	if n < 8 {
+		return nil
+	}
+	w := elems[off].(*Term).w
+	freq := map[uint64]int{}
+	for i := 0; i < n; i++ {
+		e := elems[off+i].(*Term)
+		if !e.isC || e.w != w || w == 0 {
+			return nil
+		}
+		freq[e.c]++
+	}
+	def, best := uint64(0), -1
+	for v, k := range freq {
+		if k > best || (k == best && v < def) {
+			def, best = v, k
+		}
+	}
+	r := C(w, def)
+	for hi := n - 1; hi >= 0; {
+		v := elems[off+hi].(*Term).c
+		lo := hi
+		for lo > 0 && elems[off+lo-1].(*Term).c == v {
+			lo--
+		}
+		if v != def {
+			var c *Term
+			if lo == hi {
+				c = Eq(t64, C(64, uint64(lo)))
+			} else {
+				c = And(Bin("bvule", C(64, uint64(lo)), t64), Bin("bvule", t64, C(64, uint64(hi))))
+			}
+			r = Ite(c, C(w, v), r)
+		}
+		hi = lo - 1
+	}
+	return r
 }
 
 func (in *Interp) strIndex(s Str, idx Value) Value {
@@ -1434,6 +1484,17 @@ func (in *Interp) sliceOp(fr *frame, x *ssa.Slice) Value {
 	switch bv := in.get(fr, x.X).(type) {
 	case Str:
 		if bv.opaque {
+			// an opaque string with a known concrete prefix can be sliced inside that prefix
+			// (e.g. description[:1] / description[1:] of a rendered message)
+			if lo < 0 {
+				lo = 0
+			}
+			if hi >= 0 && lo <= hi && hi <= len(bv.pre) {
+				return strOf(bv.pre[lo:hi])
+			}
+			if hi < 0 && lo <= len(bv.pre) {
+				return Str{opaque: true, s: bv.s, pre: bv.pre[lo:]}
+			}
 			in.abort("slice of opaque string")
 		}
 		if lo < 0 {
